@@ -233,6 +233,7 @@ type RecvFut = Pin<Box<dyn Future<Output = Option<u32>>>>;
 
 struct ChanEng {
     senders: Vec<Option<mpsc::Sender<u32>>>,
+    live_senders: usize,
     /// a pending `recv()` future.  It borrows `*rx` mutably: it is dropped before `rx` is used in
     /// any other way (`drop_fut`), and declared before `rx` so that it is dropped first.
     fut: Option<RecvFut>,
@@ -245,7 +246,7 @@ struct ChanEng {
 }
 impl ChanEng {
     fn n_senders(&self) -> usize {
-        self.senders.iter().filter(|s| s.is_some()).count()
+        self.live_senders // kept by hand: populations of 65 537 senders are driven through here
     }
     fn drop_fut(&mut self) {
         self.fut = None;
@@ -382,6 +383,7 @@ fn run(a: &Args) {
                     let (tx, rx) = mpsc::channel::<u32>();
                     Some(Eng::Chan(ChanEng {
                         senders: vec![Some(tx)],
+                        live_senders: 1,
                         fut: None,
                         rx: Some(Box::new(rx)),
                         queue: VecDeque::new(),
@@ -773,11 +775,13 @@ fn chan_op(e: &mut ChanEng, ws: &[&str], wk: &mut Wakers, rep: &mut Report, t3: 
             let i = num(i).filter(|i| alive(e, *i))?;
             let s = e.senders[i].as_ref().unwrap().clone();
             e.senders.push(Some(s));
+            e.live_senders += 1;
             format!("sender {}", e.senders.len() - 1)
         }
         [op @ ("dropS" | "dropSP"), i] => {
             let i = num(i).filter(|i| alive(e, *i))?;
             let s = e.senders[i].take();
+            e.live_senders -= 1;
             if *op == "dropS" {
                 drop(s);
             } else {
@@ -861,6 +865,7 @@ fn chan_op(e: &mut ChanEng, ws: &[&str], wk: &mut Wakers, rep: &mut Report, t3: 
             e.drop_fut();
             let s = e.rx.as_ref()?.sender();
             e.senders.push(Some(s));
+            e.live_senders += 1;
             format!("sender {}", e.senders.len() - 1)
         }
         [op @ ("dropR" | "dropRP")] => {
@@ -1047,6 +1052,43 @@ fn gen_c17_scenarios(w: &mut dyn Write, n: &mut u64) {
         {
             *n += 1;
             emit(w, &format!("case sc-lw-{k}{} {how}", if how == "lw" { "" } else { "d" }), &ops.iter().map(|s| s.to_string()).collect::<Vec<_>>());
+        }
+    }
+}
+
+/// C17 large populations: capacities around 2^8 and 2^9 with capacity+2 simultaneous guards — the gate
+/// shuts exactly at the capacity, the release from capacity to capacity-1 wakes the latest asker (once
+/// a counting waker, once an inline-polling one), `total` follows all the way up and down.
+fn gen_c17_populations(w: &mut dyn Write, n: &mut u64) {
+    for cap in [127usize, 128, 255, 256, 257, 511, 512, 513] {
+        for probe in [false, true] {
+            let mut ops: Vec<String> = vec!["clone 0".into()];
+            for k in 0..cap + 2 {
+                ops.push(format!("acquire {}", k % 2));
+                if k + 3 >= cap {
+                    ops.push(format!("avail {} {}", (k + 1) % 2, k % NW));
+                    ops.push("total 0".into());
+                }
+            }
+            ops.push(format!("drop {}", cap + 1));
+            ops.push(format!("avail 0 {}", NW + cap % NI));
+            ops.push(format!("dropP {cap}"));
+            ops.push("total 1".into());
+            ops.push("drop 0".into()); // capacity -> capacity - 1: wakes the inline-polling asker
+            ops.push("avail 1 1".into());
+            ops.push("acquire 0".into());
+            ops.push("avail 1 2".into());
+            ops.push(format!("drop {}", cap + 2)); // again: wakes waker 2
+            for g in 1..cap {
+                ops.push(format!("{} {g}", if g % 5 == 0 { "dropP" } else { "drop" }));
+                if g % 64 == 0 || g + 3 >= cap {
+                    ops.push(format!("total {}", g % 2));
+                    ops.push("avail 0 3".into());
+                }
+            }
+            ops.push("dbg 1".into());
+            *n += 1;
+            emit(w, &format!("case pop-{cap}{} counter {cap}{}", if probe { "p" } else { "" }, if probe { " probe" } else { "" }), &ops);
         }
     }
 }
@@ -1340,6 +1382,7 @@ fn gen_c17(a: &Args, w: &mut dyn Write) {
     let thorough = a.tier == "thorough";
     let mut sc = 0u64;
     gen_c17_scenarios(w, &mut sc);
+    gen_c17_populations(w, &mut sc);
     let mut n = 0u64;
     for cap in 0..=3 {
         // (1) every live guard droppable, one clone allowed, two wakers
@@ -1417,6 +1460,95 @@ fn gen_c16_scenarios(w: &mut dyn Write, n: &mut u64) {
                 emit(w, &format!("case sc-park-{pi}-{ei}-{ai} chan"), &ops);
             }
         }
+    }
+}
+
+/// C16 large populations, emitted right after the directed scenarios: the sender set is grown to each
+/// of `sizes` (ascending) and probed there — the receiver parks (`poll` must be Pending), a send from
+/// the newest and from the oldest sender each wake it exactly once and are received once, in order,
+/// through `poll_next` and `recv()` — then (`shrink`) taken down again one sender at a time with the
+/// receiver parked: no drop but the last one wakes it, and the same probes run again at each size on
+/// the way down.  `via`: how the population grows — `chain` (clone of the newest sender), `first`
+/// (clone of sender 0), `rsender` (`Receiver::sender()`), `mixed` (all three in turn), `alt` (chain and rsender in turn:
+/// the two that cost O(1) per line on the model side, for the 16- and 17-bit populations).
+fn gen_chan_population(w: &mut dyn Write, name: &str, via: &str, sizes: &[usize], shrink: bool, newest_first: bool) {
+    let mut ops: Vec<String> = vec![];
+    let mut alive: Vec<usize> = vec![0];
+    let mut next = 1usize;
+    let mut msg = 0usize;
+    let probe = |ops: &mut Vec<String>, alive: &[usize], msg: &mut usize| {
+        let (newest, oldest) = (*alive.last().unwrap(), alive[0]);
+        ops.push("poll 1".into());
+        *msg += 1;
+        ops.push(format!("send {newest} {msg}"));
+        ops.push("poll 2".into());
+        ops.push("poll 2".into());
+        *msg += 1;
+        ops.push(format!("ssend {oldest} {msg}"));
+        ops.push("recv 3".into());
+        ops.push("recv 3".into());
+        *msg += 2;
+        ops.push(format!("send {oldest} {}", *msg - 1));
+        ops.push(format!("send {newest} {msg}"));
+        ops.push("recvNew 0".into());
+        ops.push("poll 0".into());
+        ops.push("poll 1".into());
+    };
+    for &size in sizes {
+        while alive.len() < size {
+            let how = match via {
+                "mixed" => ["chain", "first", "rsender"][next % 3],
+                "alt" => ["chain", "rsender"][next % 2],
+                v => v,
+            };
+            match how {
+                "chain" => ops.push(format!("clone {}", alive.last().unwrap())),
+                "first" => ops.push(format!("clone {}", alive[0])),
+                _ => ops.push("rsender".into()),
+            }
+            alive.push(next);
+            next += 1;
+        }
+        probe(&mut ops, &alive, &mut msg);
+    }
+    if shrink {
+        // the receiver is parked with waker 1 from the last probe
+        while alive.len() > 1 {
+            let i = if newest_first { alive.pop().unwrap() } else { alive.remove(0) };
+            ops.push(format!("{} {i}", if i % 7 == 3 { "dropSP" } else { "dropS" }));
+            if sizes.contains(&alive.len()) {
+                probe(&mut ops, &alive, &mut msg);
+            }
+        }
+        ops.push(format!("dropS {}", alive[0]));
+        ops.push("poll 1".into());
+    } else {
+        // two drops at the top with the receiver parked, then the receiver goes first
+        for _ in 0..2 {
+            let i = alive.pop().unwrap();
+            ops.push(format!("dropS {i}"));
+        }
+        probe(&mut ops, &alive, &mut msg);
+        ops.push("dropR".into());
+        ops.push(format!("send {} 0", alive[0]));
+    }
+    emit(w, &format!("case {name} chan"), &ops);
+}
+
+fn gen_c16_populations(w: &mut dyn Write, thorough: bool, n: &mut u64) {
+    let small = [1usize, 2, 3, 127, 128, 129, 255, 256, 257, 511, 512, 513];
+    for (k, via) in ["chain", "first", "rsender", "mixed"].iter().enumerate() {
+        gen_chan_population(w, &format!("pop-{via}"), via, &small, true, k % 2 == 0);
+        *n += 1;
+    }
+    // a 16-bit count: grown by clones of the newest sender / by Receiver::sender() (O(1) per line on both sides)
+    let big = [32767usize, 32768, 32769, 65535, 65536, 65537];
+    gen_chan_population(w, "pop-big-chain", "chain", &big, false, true);
+    *n += 1;
+    if thorough {
+        gen_chan_population(w, "pop-big-rsender", "rsender", &big, false, true);
+        gen_chan_population(w, "pop-big-alt", "alt", &[65535, 65536, 65537, 131071, 131072, 131073], false, true);
+        *n += 2;
     }
 }
 
@@ -1623,6 +1755,8 @@ fn gen_c16(a: &Args, w: &mut dyn Write) {
     let thorough = a.tier == "thorough";
     let mut sc = 0u64;
     gen_c16_scenarios(w, &mut sc);
+    let mut np = 0u64;
+    gen_c16_populations(w, thorough, &mut np);
     let mut n = 0u64;
     let core = ChCfg { len: 6, max_senders: 3, sym: false, wakers: 2, rsender: true, extra: &[], sender_extra: &[], unwind: false, tag: "ch" };
     // (1) the core alphabet
@@ -1683,7 +1817,7 @@ fn gen_c16(a: &Args, w: &mut dyn Write) {
     );
     let mut rng = Rng::new(a.seed ^ 0x16);
     gen_chan_random(w, &mut rng, if thorough { 30000 } else { 2000 }, 40);
-    eprintln!("C16 gen: {sc} scenarios, {n} exhaustive core cases, {nr} exhaustive receive-path cases, {ns} exhaustive sink/quiet cases, {nu} exhaustive unwinding-drop cases");
+    eprintln!("C16 gen: {sc} scenarios, {np} large-population cases, {n} exhaustive core cases, {nr} exhaustive receive-path cases, {ns} exhaustive sink/quiet cases, {nu} exhaustive unwinding-drop cases");
 }
 
 fn gen(a: &Args) {
